@@ -155,7 +155,15 @@ func VerifHarness_C17_O2() {
 
 // C17/O3 — suspension rule: Suspend is invoked iff the undetermined events
 // created since start exceed limit x validators, or the node was evicted.
-func VerifHarness_C17_O3() {
+func VerifHarness_C17_O3() { verifC17Suspension(false) }
+
+// C17/O6 — the same rule as the running node applies it: ONE heartbeat is
+// delivered to the real babble() loop (tick channel), for a node that is busy
+// or idle (symbolic), and the loop is then told to stop.  After the heartbeat
+// the node is suspended iff the rule says so — also when it has nothing to do.
+func VerifHarness_C17_O6() { verifC17Suspension(true) }
+
+func verifC17Suspension(throughBabbleLoop bool) {
 	vn := verifNewNode(3, 0, 1000)
 	n := vn.n
 	n.SetState(state.Babbling)
@@ -182,7 +190,30 @@ func VerifHarness_C17_O3() {
 	}
 	// the application's state-change handler may fail at that very moment
 	vn.proxy.failStateChange = verifNondetBool("stateChangeHandlerFails")
-	n.checkSuspend()
+	if throughBabbleLoop {
+		if verifNondetBool("nodeIsBusy") {
+			n.core.transactionPool = [][]byte{[]byte("pending")}
+		}
+		// the control-timer goroutine is not running: mark the timer as set so
+		// that resetTimer has nothing to send to it
+		n.controlTimer.isSet = true
+		go func() {
+			n.controlTimer.tickCh <- struct{}{}
+			close(n.shutdownCh)
+		}()
+		n.babble(false)
+		if len(vn.proxy.states) == 0 && n.GetState() != state.Suspended {
+			select {
+			case <-n.controlTimer.tickCh:
+				// the loop was stopped before it took the heartbeat (an order that
+				// only the engine's sequential channel model offers): nothing to check
+				return
+			default:
+			}
+		}
+	} else {
+		n.checkSuspend()
+	}
 	tooMany := und-initial > limit*nvals
 	evicted := hasLCR && removed > 0 && removed > accepted && lcr >= removed
 	isSuspended := n.GetState() == state.Suspended
